@@ -92,7 +92,7 @@ def move_case(n, outcomes, msg_id=5, pc_id=1, default_handler=False, declared=No
         ctx = sub.accepted_contexts.get(s['pc_ids'][0]) if s['pc_ids'] else None
         if ctx is None or str(ctx.sop_class) != svc.SC_STORAGE:
             raise Violation('%s:move:store-context' % PROP, 'sub-operation %d sent on context %r' % (i + 1, s['pc_ids']), case)
-        if not svc.ds_equal(svc.dec_ds(s['data'] or b'', str(ctx.supported_ts)), ds):
+        if not svc.wire_ds_equal(s['data'] or b'', str(ctx.supported_ts), ds):
             raise Violation('%s:move:store-content' % PROP, 'sub-operation %d: data set differs from the supplied one' % (i + 1), case)
 
 
